@@ -724,6 +724,61 @@ func excluded(c Case) string {
 	for _, d := range c.Defs {
 		walkLit(d, where{inDef: true}, visit)
 	}
+	if bad == "" {
+		// F82, nested form: a field declared twice with struct values, one of which embeds a
+		// definition (ab: {b: 1, #D0}, ab: {a: {...}}): the conjunction happens below the top level
+		hasEmbRef := func(e *Expr) bool {
+			found := false
+			walkExpr(e, where{}, func(x *Expr, w where) {
+				if w.inEmbed && x.Kind == "ref" {
+					found = true
+				}
+			})
+			return found
+		}
+		var chkLit func(l *Lit)
+		var chkExpr func(e *Expr)
+		chkExpr = func(e *Expr) {
+			if e == nil {
+				return
+			}
+			switch e.Kind {
+			case "and":
+				chkExpr(e.Args[0])
+				chkExpr(e.Args[1])
+			case "lit", "close":
+				chkLit(e.Lit)
+			}
+		}
+		chkLit = func(l *Lit) {
+			n := map[string]int{}
+			emb := map[string]bool{}
+			for _, f := range l.Fields {
+				if f.Val.Kind != "leaf" {
+					n[f.Label]++
+					if hasEmbRef(f.Val) {
+						emb[f.Label] = true
+					}
+				}
+				chkExpr(f.Val)
+			}
+			for lb, k := range n {
+				if k >= 2 && emb[lb] {
+					bad = "NoNestedDataBelowConjunctionWithEmbeddedDefinition(F82)"
+				}
+			}
+			for _, p := range l.Pats {
+				chkExpr(p.Val)
+			}
+			for _, e := range l.Embeds {
+				chkExpr(e)
+			}
+		}
+		chkExpr(c.Schema)
+		for _, d := range c.Defs {
+			chkLit(d)
+		}
+	}
 	if bad == "" && c.Schema.Kind == "and" {
 		// F82: a literal that embeds a definition closes the nested structs that other conjuncts
 		// contribute ({#D0} & {b: {a: int}} rejects b.b although #D0 is {...} and #D0 & {b: {a: int}}
